@@ -64,7 +64,26 @@ def history(draw):
     steps = []
     for _ in range(draw(st.integers(2, 8))):
         m = draw(st.integers(0, n_models - 1))
-        if draw(st.integers(0, 2)) == 0:
+        twin = draw(st.integers(0, 3)) == 0 and bool(steps)
+        if twin:
+            # the previous build once more, its support-files prefix respelled: another
+            # namespace that joins to the same underscore-separated name (A.B <-> A_B), the same
+            # identifiers in another order, one level more / less
+            m = steps[-1]['m']
+            spec = json.loads(json.dumps(steps[-1]['spec']))
+            ids = list(spec.get('prefix') or ['Lib', 'Util'])
+            how = draw(st.integers(0, 3))
+            if how == 0:
+                ids = ['_'.join(ids)] if len(ids) > 1 else (ids[0].split('_') if '_' in ids[0].strip('_')
+                                                           else ids + ['X'])
+            elif how == 1:
+                ids = list(reversed(ids)) if len(ids) > 1 else ids + ids
+            elif how == 2:
+                ids = ids[:-1] or ['Lib']
+            else:
+                ids = [ids[0] + '_' + ids[0]] + ids[1:]
+            spec['prefix'] = [i for i in ids if i] or ['Lib']
+        elif draw(st.integers(0, 2)) == 0:
             spec = bases[m]['spec']
         else:
             spec = draw(gen_cfg.valid_spec(models[m]))['spec']
